@@ -88,6 +88,16 @@ def run(ctx):
                 T[i][i] = Q(3 + i, 1, 0, 0)
             out.append(('triangular', T))
         G = qx.add(qx.rand_int(rng, n, n, -3, 3), qx.scale(7, I)); out.append(('generic', G))
+        if n >= 2:
+            # exact stagnation: <v1, A v1> = 0 at the first Arnoldi step (zero diagonal entry of the reduced Hessenberg matrix with a non-zero sub-diagonal)
+            units = [Q(1), Q(0, 1, 0, 0), Q(0, 0, 1, 0), Q(0, 0, 0, 1)]
+            out.append(('cyclic-shift', [[units[(i + j) % 4] if (i - j) % n == 1 else Q() for j in range(n)] for i in range(n)]))
+            Ds = qx.zeros(n, n)
+            for i in range(n): Ds[i][i] = Q((n // 2 - i) if i < n // 2 else -(i - n // 2 + (1 if n % 2 == 0 else 0)) or 1)
+            out.append(('symmetric-spectrum-diagonal', Ds))
+            Ex = qx.zeros(n, n)
+            for i in range(n): Ex[i][n - 1 - i] = Q(0, 0, 1, 0) if i < n - 1 - i else (Q(0, 0, -1, 0) if i > n - 1 - i else Q(1))
+            out.append(('quaternion-exchange', Ex))
         return out
     ctl_terms = []
     nmax = 3 if ctx.quick() else 5
@@ -96,6 +106,8 @@ def run(ctx):
             An = qx.to_np(A)
             rhs = [('random', qx.rand_int(rng, n, 1, -3, 3))]
             if cls in ('repeated-diagonal',): e = qx.zeros(n, 1); e[0][0] = Q(1); rhs.append(('eigenvector', e))
+            if cls in ('cyclic-shift', 'quaternion-exchange'): e = qx.zeros(n, 1); e[0][0] = Q(1); rhs.append(('unit-vector', e))
+            if cls == 'symmetric-spectrum-diagonal': rhs.append(('ones', [[Q(1)] for _ in range(n)]))
             rhs.append(('zero', qx.zeros(n, 1)))
             for bcls, b in rhs:
                 if bcls == 'random' and all(q[0].is_zero() for q in b): b[0][0] = Q(1)
